@@ -2,9 +2,9 @@ package c15
 
 import (
 	"encoding/json"
+	"fmt"
 	"math"
 	"regexp"
-	"fmt"
 	"strings"
 	"testing"
 	"time"
